@@ -37,6 +37,14 @@ theorem mset_accounts_to (orc : Oracle) (fp tp : List Nat) (fs ts : List Tree)
       ((parts fs ts).chT.map fun k => Ix.at ((parts fs ts).chT.idxOf k)) :=
   msGenScript_accounts_to orc fp tp fs ts etbl hT
 
+-- [audit] non-vacuity of `mset_accounts_from` / `mset_accounts_to`: the hypothesis `hT` (table entries are never bare
+-- Insert / Remove / kvp) holds for a constant table; multisets with a duplicate and a shared element
+example := mset_accounts_from [] [] [] [.leaf (.int 1), .leaf (.int 1), .leaf (.int 2)] [.leaf (.int 4), .leaf (.int 2)]
+  (fun _ _ => mkMatch 1) (fun _ _ => rfl)
+-- [audit] non-vacuity
+example := mset_accounts_to [] [] [] [.leaf (.int 1), .leaf (.int 1), .leaf (.int 2)] [.leaf (.int 4), .leaf (.int 2)]
+  (fun _ _ => mkMatch 1) (fun _ _ => rfl)
+
 /-- `MultiSetNode(fs).edits(MultiSetNode(ts))`: either `Match(…, 0)` without sub-edits (equal counters), or a
     MultiSetEdit whose sub-edits account for BOTH multisets by multiplicity — all options, all oracles -/
 theorem mset_accounts (o : Opts) (orc : Oracle) (fp tp : List Nat) (fs ts : List Tree) :
